@@ -103,15 +103,22 @@ func (cp *CertificatePoliciesData) MarshalJSON() ([]byte, error) {
 			cpsJSON.CPSUri = append(cpsJSON.CPSUri, uri)
 		}
 
-		for idx2, explicit_text := range cp.ExplicitTexts[idx] {
+		// One entry per parsed UserNotice. The parallel ExplicitTexts /
+		// NoticeRefOrganization / NoticeRefNumbers slices only hold the fields
+		// that were present, so they cannot be indexed by a common position: a
+		// notice with an explicit text but no notice reference made them differ
+		// in length (index out of range) or paired a text with the reference of
+		// another notice.
+		for _, notice := range cp.UserNotices[idx] {
+			if notice.ExplicitText == nil && notice.NoticeReference == nil {
+				continue
+			}
 			uNoticeData := UserNoticeData{}
-			uNoticeData.ExplicitText = explicit_text
-			noticeRef := NoticeReference{}
-			if len(cp.NoticeRefOrganization[idx]) > 0 {
-				organization := cp.NoticeRefOrganization[idx][idx2]
-				noticeRef.Organization = organization
-				noticeRef.NoticeNumbers = cp.NoticeRefNumbers[idx][idx2]
-				uNoticeData.NoticeReference = append(uNoticeData.NoticeReference, noticeRef)
+			if notice.ExplicitText != nil {
+				uNoticeData.ExplicitText = *notice.ExplicitText
+			}
+			if notice.NoticeReference != nil {
+				uNoticeData.NoticeReference = append(uNoticeData.NoticeReference, *notice.NoticeReference)
 			}
 			cpsJSON.UserNotice = append(cpsJSON.UserNotice, uNoticeData)
 		}
